@@ -283,7 +283,7 @@ fn bits_alpha(rng: &mut Rng) -> (u64, Vec<u64>) {
 
 pub const SYNC_NAMES: &[&str] = &[
     "addconst_int", "addconst_f32", "mulconst_int", "mulconst_f32", "xorconst", "xor", "add_int", "add_f32", "tee",
-    "slicer", "f2c", "mag2", "nrzi", "descrambler", "cac", "cactag", "bursttagger",
+    "slicer", "f2c", "mag2", "nrzi", "descrambler", "cac", "cactag", "bursttagger", "map",
 ];
 pub const ARITY_NAMES: &[&str] = &["arity", "aritytag"];
 
@@ -336,6 +336,18 @@ pub fn build(name: &str, rng: &mut Rng) -> Built {
             params = vec![v];
             alphabets = vec![(256, vec![])];
             rig1::<u8, u8>(rng, |r| bx!(XorConst::new(r, v as u8)))
+        }
+        "map" => {
+            // convert::Map through its builder: an arbitrary per-sample closure (here x -> 3x + 7 mod 2^32, or
+            // x -> x >> k), changing the sample type in the second form
+            let k = rng.below(3) as u64;
+            params = vec![k];
+            alphabets = vec![(1 << 32, vec![])];
+            if k == 0 {
+                rig1::<u32, u32>(rng, |r| bx!(rustradio::convert::MapBuilder::new(r, |x: u32| x.wrapping_mul(3).wrapping_add(7)).name("verif-map").build()))
+            } else {
+                rig1::<u32, u8>(rng, move |r| bx!(rustradio::convert::MapBuilder::new(r, move |x: u32| (x >> (8 * k)) as u8).build()))
+            }
         }
         "xor" => {
             alphabets = vec![(256, vec![]), (256, vec![])];
